@@ -41,7 +41,8 @@ REQUIRED = ["probes", "graphs", "graphs_with_cycles", "graphs_with_oneway",
             "histories_with_spanning_tree_options", "histories_with_a_flood_everything_flow",
             "withdrawals_checked_at_disconnect", "ports_deleted", "ports_readded",
             "reconnects_before_the_old_connection_closed",
-            "ports_that_kept_announcing_changes"]
+            "ports_that_kept_announcing_changes",
+            "histories_with_a_link_on_the_highest_port_number"]
 TIMEOUT = {"quick": 1500, "thorough": 10800}
 
 _st = {}
@@ -232,9 +233,16 @@ def run_graph (case, rep):
 # --------------------------------------------------------------------------
 # (c) end to end
 
+def gen_port (sw, no):
+  # (the switch's own default port names only fit numbers below 1000 into the
+  #  16-octet name field)
+  return sw.generate_port(no, name=None if no < 1000 else "p%x" % no)
+
+
 class Topo (object):
-  def __init__ (self, w, n, dpid_base, initial_ports=4, hub=False):
+  def __init__ (self, w, n, dpid_base, initial_ports=4, hub=False, port_map=None):
     self.hub = hub
+    self.port_map = port_map or {}
     self.initial_ports = initial_ports
     self.w = w
     self.n = n
@@ -249,7 +257,15 @@ class Topo (object):
 
   def connect (self, i):
     c, s = self.w.connect_switch_socket("t%d" % i)
-    sp = simnet.SwitchPeer(self.w, self.dpids[i], s, ports=self.initial_ports,
+    ports = self.initial_ports
+    if self.port_map:
+      # the same switch with other port numbers (the highest one a physical
+      # port can have among them)
+      import pox.datapaths.switch as swm
+      tmp = swm.SoftwareSwitch(self.dpids[i], ports=0)
+      ports = [gen_port(tmp, self.port_map.get(k, k))
+               for k in range(1, self.initial_ports + 1)]
+    sp = simnet.SwitchPeer(self.w, self.dpids[i], s, ports=ports,
                            max_buffers=0)
     sp.on_out = (lambda peer, port, raw, i=i: self.emitted(i, port, raw))
     self.sw[i] = sp
@@ -369,10 +385,14 @@ def run_history (case, rep):
     # datapath ids 1..n: the same small numbers the ports carry
     base = 1
     rep.count("histories_with_dpids_equal_to_port_numbers")
+  pmap = {int(k): v for k, v in (case.get("port_map") or {}).items()}
+  pm = lambda x: pmap.get(x, x)
+  if pmap: rep.count("histories_with_a_link_on_the_highest_port_number")
   topo = Topo(w, n, base,
-              initial_ports=case.get("initial_ports", 4), hub=bool(case.get("hub")))
+              initial_ports=case.get("initial_ports", 4), hub=bool(case.get("hub")),
+              port_map=pmap)
   if case.get("hub"): rep.count("histories_with_a_flood_everything_flow")
-  for (i, p, j, q) in wires: topo.wire(i, p, j, q)
+  for (i, p, j, q) in wires: topo.wire(i, pm(p), j, pm(q))
   mine = set(topo.dpids)
   ev0 = len(_st["events"])
   rep.count("histories")
@@ -399,6 +419,8 @@ def run_history (case, rep):
     if not judge(topo, fire, rep, "after a quiet period", mine, ev0): return True
     for op in case["ops"]:
       k = op[0]
+      if pmap and k in ("cut", "cut_both", "restore", "port_del", "port_add", "flap"):
+        op = [op[0], op[1], pm(op[2])] + list(op[3:])
       mark = len(_st["events"])
       links_before = topo.directed_links()
       if k == "cut":                       # one direction of a link goes dark
@@ -434,7 +456,7 @@ def run_history (case, rep):
       elif k == "port_add":
         i_, p_ = op[1], op[2]
         if i_ in topo.sw and p_ not in topo.sw[i_].switch.ports:
-          topo.sw[i_].switch.add_port(topo.sw[i_].switch.generate_port(p_)); w.run()
+          topo.sw[i_].switch.add_port(gen_port(topo.sw[i_].switch, p_)); w.run()
           rep.count("ports_readded")
       elif k == "flap":
         # one port keeps announcing changes of itself (it renegotiates its
@@ -470,11 +492,11 @@ def run_history (case, rep):
         # ports that did not exist when the switch connected are added one
         # by one (each announced with a port-status message)
         for i in sorted(topo.sw):
-          for pno in (1, 2, 3, 4):
+          for pno in (pm(1), pm(2), pm(3), pm(4)):
             if pno not in topo.sw[i].switch.ports:
               # (add_port(<int>) itself is broken in the pinned tree: it hands
               #  the dpid to generate_port as the port name; not a C19 matter)
-              topo.sw[i].switch.add_port(topo.sw[i].switch.generate_port(pno))
+              topo.sw[i].switch.add_port(gen_port(topo.sw[i].switch, pno))
               w.run()
         rep.count("ports_hot_plugged")
       nt = True
@@ -725,6 +747,11 @@ def gen_histories (rng, n, link_timeout=None, st_opts=None):
       case["ops"] = [["hotplug"]] + ops
     if link_timeout: case["link_timeout"] = link_timeout
     if rng.random() < 0.35: case["small_dpids"] = True
+    if rng.random() < 0.25:
+      # 0xfeff is the highest number a physical port can have (OFPP_MAX,
+      # 0xff00, is the *number* of port numbers: the switch, the spanning
+      # tree and Open vSwitch all take ports to be below it)
+      case["port_map"] = {str(rng.choice([1, 2])): 0xfeff}
     if rng.random() < 0.3: case["hub"] = True
     if st_opts: case["st_opts"] = st_opts
     yield case
